@@ -32,6 +32,13 @@ impl Prop for C08 {
     fn cases(&self, tier: Tier) -> u64 {
         tier.pick(40_000, 800_000)
     }
+    fn fuzz_plan(&self, tier: Tier) -> Vec<(&'static str, u64)> {
+        if tier == Tier::Thorough {
+            vec![("prop", 150_000)]
+        } else {
+            vec![]
+        }
+    }
     fn choice_len(&self) -> usize {
         8000
     }
